@@ -73,7 +73,20 @@ func zzAnyPtr(v any) *any { return &v }
 // presence/kind combinations; here the point is attachment and wiring).
 func zzNumericShape(t *schemas.Type, s *zzSpec) {
 	f := func() *float64 { v := zzvrt.Float64(); return &v }
-	switch zzvrt.Choice(zzvrt.Param("NUMSHAPES", 7)) {
+	shape := 0
+	if m := zzvrt.Param("NUMSHAPEMASK", 0); m != 0 {
+		// only the shapes whose bit is set
+		var allowed []int
+		for k := 0; k < 7; k++ {
+			if m&(1<<k) != 0 {
+				allowed = append(allowed, k)
+			}
+		}
+		shape = allowed[zzvrt.Choice(len(allowed))]
+	} else {
+		shape = zzvrt.Choice(zzvrt.Param("NUMSHAPES", 7))
+	}
+	switch shape {
 	case 0: // no bounds
 	case 1:
 		s.min = f()
@@ -89,6 +102,23 @@ func zzNumericShape(t *schemas.Type, s *zzSpec) {
 	case 6:
 		s.exMin, s.exMax = zzAnyPtr(zzvrt.Float64()), zzAnyPtr(zzvrt.Float64())
 	}
+	// multipleOf: integral, fractional and (last) an arbitrary positive value
+	switch zzvrt.Choice(zzvrt.Param("MULT", 1)) {
+	case 1:
+		s.multipleOf = zzF(1)
+	case 2:
+		s.multipleOf = zzF(0.5)
+	case 3:
+		s.multipleOf = zzF(3)
+	case 4:
+		s.multipleOf = zzF(2.5)
+	case 5:
+		s.multipleOf = zzF(300)
+	case 6:
+		m := zzvrt.Float64()
+		zzvrt.Assume(m > 0)
+		s.multipleOf = &m
+	}
 	cp := func(p *float64) *float64 {
 		if p == nil {
 			return nil
@@ -96,6 +126,7 @@ func zzNumericShape(t *schemas.Type, s *zzSpec) {
 		v := *p
 		return &v
 	}
+	t.MultipleOf = cp(s.multipleOf)
 	cpa := func(p *any) *any {
 		if p == nil {
 			return nil
@@ -105,6 +136,8 @@ func zzNumericShape(t *schemas.Type, s *zzSpec) {
 	}
 	t.Minimum, t.Maximum, t.ExclusiveMinimum, t.ExclusiveMaximum = cp(s.min), cp(s.max), cpa(s.exMin), cpa(s.exMax)
 }
+
+func zzF(v float64) *float64 { return &v }
 
 func zzLimit() int {
 	n := zzvrt.Int()
@@ -127,7 +160,7 @@ func zzGen(mask int, depth int, allowNullable bool) (*schemas.Type, *zzSpec) {
 	t := &schemas.Type{}
 	s := &zzSpec{}
 	nullable := false
-	if allowNullable && k != zzKEnumString && k != zzKEnumInt && k != zzKEnumMixed && k != zzKAny && k != zzKEnumStrNull {
+	if allowNullable && zzvrt.Param("NULLABLE", 1) == 1 && k != zzKEnumString && k != zzKEnumInt && k != zzKEnumMixed && k != zzKAny && k != zzKEnumStrNull {
 		nullable = zzvrt.Bool()
 	}
 	s.nullable = nullable
